@@ -88,14 +88,19 @@ impl SimHooks for Hooks {
 struct CountPolls<F> {
     inner: Pin<Box<F>>,
     polls: u32,
+    /// Stamps every poll with the global sequence counter: the waiter's last look at the counts
+    /// happens inside its last poll.
+    seq: Arc<AtomicU64>,
+    last_poll: u64,
 }
 
 impl<F: Future> Future for CountPolls<F> {
-    type Output = u32;
-    fn poll(mut self: Pin<&mut Self>, cx: &mut Context<'_>) -> Poll<u32> {
+    type Output = (u32, u64);
+    fn poll(mut self: Pin<&mut Self>, cx: &mut Context<'_>) -> Poll<(u32, u64)> {
         self.polls += 1;
+        self.last_poll = self.seq.fetch_add(1, Ordering::SeqCst);
         match self.inner.as_mut().poll(cx) {
-            Poll::Ready(_) => Poll::Ready(self.polls),
+            Poll::Ready(_) => Poll::Ready((self.polls, self.last_poll)),
             Poll::Pending => Poll::Pending,
         }
     }
@@ -115,6 +120,7 @@ struct WaitRec {
     start: u64,
     end: u64,
     polls: u32,
+    last_poll: u64,
 }
 
 /// One generated scenario, run under whatever schedule the scheduler picks.
@@ -188,13 +194,13 @@ fn scenario() {
         let (fc, seq, waits) = (fc.clone(), seq.clone(), waits.clone());
         handles.push(shuttle::thread::spawn(move || {
             let start = seq.fetch_add(1, Ordering::SeqCst);
-            let fut = CountPolls { inner: Box::pin(async move { fc.wait_for_available_space().await }), polls: 0 };
-            let polls = shuttle::future::block_on(fut);
+            let fut = CountPolls { inner: Box::pin(async move { fc.wait_for_available_space().await }), polls: 0, seq: seq.clone(), last_poll: 0 };
+            let (polls, last_poll) = shuttle::future::block_on(fut);
             let end = seq.fetch_add(1, Ordering::SeqCst);
             if polls > 1 {
                 PARKED.fetch_add(1, Ordering::Relaxed);
             }
-            waits.lock().unwrap().push(WaitRec { start, end, polls });
+            waits.lock().unwrap().push(WaitRec { start, end, polls, last_poll });
         }));
     }
     for prog in programs.iter().cloned() {
@@ -222,22 +228,44 @@ fn scenario() {
     // invoked before it ended counted out, the counts cannot have been lower than this:
     let ops = ops.lock().unwrap().clone();
     let waits = waits.lock().unwrap().clone();
+    // ... and during its *last poll* (its last look at the counts; an observation made in an earlier
+    // poll, before it went back to waiting, does not license the return): there must be an instant
+    // of the last poll at which the message count can have been below its limit, and one at which
+    // the byte count can (the two are separate atomics, read one after the other). At an instant t
+    // a count is at least initial + increments that had returned by t - decrements invoked by t.
     for w in waits.iter() {
-        let mut lo_m = init_msgs as i128;
-        let mut lo_b = init_bytes as i128;
+        let from = w.last_poll.max(w.start);
+        let mut instants: Vec<u64> = vec![from, w.end];
         for o in ops.iter() {
-            if o.inc && o.ret < w.start {
-                lo_m += o.msgs as i128;
-                lo_b += o.bytes as i128;
-            }
-            if !o.inc && o.inv < w.end {
-                lo_m -= o.msgs as i128;
-                lo_b -= o.bytes as i128;
+            for t in [o.inv, o.ret] {
+                if t > from && t < w.end {
+                    instants.push(t);
+                }
             }
         }
+        let (mut ok_m, mut ok_b) = (false, false);
+        let (mut min_m, mut min_b) = (i128::MAX, i128::MAX);
+        for t in instants.iter() {
+            let mut lo_m = init_msgs as i128;
+            let mut lo_b = init_bytes as i128;
+            for o in ops.iter() {
+                if o.inc && o.ret <= *t {
+                    lo_m += o.msgs as i128;
+                    lo_b += o.bytes as i128;
+                }
+                if !o.inc && o.inv <= *t {
+                    lo_m -= o.msgs as i128;
+                    lo_b -= o.bytes as i128;
+                }
+            }
+            ok_m |= lo_m < max_msgs as i128;
+            ok_b |= lo_b < max_bytes as i128;
+            min_m = min_m.min(lo_m);
+            min_b = min_b.min(lo_b);
+        }
         assert!(
-            lo_m < max_msgs as i128 && lo_b < max_bytes as i128,
-            "C19.spurious: a waiter resumed although the counts cannot have been below their limits during its wait: msgs>={lo_m} (max {max_msgs}) bytes>={lo_b} (max {max_bytes}); wait={w:?} ops={ops:?}"
+            ok_m && ok_b,
+            "C19.spurious: a waiter resumed although during its last poll the counts cannot both have been seen below their limits: msgs>={min_m} (max {max_msgs}) bytes>={min_b} (max {max_bytes}); wait={w:?} ops={ops:?}"
         );
     }
     assert!(fc.has_available_space(), "scenario must end with free capacity");
